@@ -123,6 +123,8 @@ def p1_panics(ctx):
     for w in D.annot['witness']:
         ctx.rules['P1'].analysed.append('value annotation: ' + w)
     left = collections.defaultdict(list)
+    from ..report import load_known
+    known_keys = set(k['key'] for k in load_known() if k.get('property') == 'C01' and k.get('status') == 'known')
     bodies = [ctx.facts.bodies[p] for p in sorted(reach) if ctx.facts.bodies[p].kind != 'promoted']
     ctx.rules['P1'].analysed.append('%d bodies reachable from execute/execute_session/basic_execute/format_result' % len(bodies))
     obs = []
@@ -141,7 +143,11 @@ def p1_panics(ctx):
         if d:
             ctx.ok('P1', '%s: %s' % (ob.key(), d[1]), d[0], site=ob.loc, sample=(n % 41 == 0))
         else:
-            left[ob.key()].append(ob)
+            # the key under which the site is judged: its own, or - when code was moved into a helper / closure - the key it
+            # would have in the function that owns the helper, if a reviewed or known entry exists for that one
+            ks = ob.keys()
+            pick = next((k for k in ks if k in REVIEWED or ('C01/P1/' + k) in known_keys), ks[0])
+            left[pick].append(ob)
     for b in bodies:
         for gt, ct, fam, why in held_across_calls(D, b):
             ctx.rules['P1'].instances += 0
